@@ -197,6 +197,13 @@ def step (ws : List String) : Option String :=
         | .ok (b, e) => "ok " ++ showHex b ++ " " ++ showOptEnc e
         | .error e => showExc e)
     | _, _ => some "bad-op"
+  | "pdu.enc2" :: dflt :: rest =>
+    match parseEnc dflt, parseMsg rest with
+    | some d, some m =>
+      some (match pduAgain d m with
+        | .ok (b, e) => "ok " ++ showHex b ++ " " ++ showOptEnc e
+        | .error e => showExc e)
+    | _, _ => some "bad-op"
   | ["pdu.dec", dflt, hex] =>
     match parseEnc dflt, parseHex hex with
     | some d, some b =>
